@@ -81,6 +81,11 @@ class Computation(Generic[T]):
         """Get the still pending future, or None if there is none."""
         return self._value if self._status is _PENDING else None
 
+    @property
+    def fulfilled_value(self) -> T | None:
+        """Get the memoized value if the computation has succeeded, else None."""
+        return self._value if self._status is _FULFILLED else None
+
     def result(self) -> AwaitableOrValue[T]:
         """Get the memoized result, priming the computation if necessary.
 
